@@ -167,6 +167,7 @@ fn isolated_thread<T: Send>(seed: u64, f: impl FnOnce() -> T + Send) -> T {
     KEY.store(splitmix(seed ^ 0xe7_7a0b), Ordering::SeqCst);
     CTR.store(0, Ordering::SeqCst);
     DRAWS.store(0, Ordering::SeqCst);
+    super::tape::begin_run();
     ON.store(true, Ordering::SeqCst);
     let r = std::thread::scope(|s| {
         std::thread::Builder::new()
